@@ -353,6 +353,134 @@ theorem value_media {x : Survey} (hx : ((flats x).map (·.xpath)).Nodup) {f : Fl
   have h1 := valueAt_setup_agree he hag
   exact valueAt_pad x.lists _ _ _ _ _ h1
 
+/-! ### plain strings filed under the default language -/
+
+theorem functional_single (a : Str × Str) : Functional [a] := by
+  intro u hu v hv _
+  simp only [List.mem_singleton] at hu hv
+  rw [hu, hv]
+
+/-- **plain hint next to a guidance hint**: the hint is filed under the default language -/
+theorem value_hint_plain {x : Survey} (hx : ((flats x).map (·.xpath)).Nodup) {f : Flat} (hf : f ∈ flats x)
+    (hv : visited f = true) {s : Str} (hl : f.d.hint = .str s) (hs : s ≠ []) (hg : f.d.guidance.truthy = true) :
+    valueAt (table x) x.defaultLanguage (path f.xpath "hint") "long".toList = some s := by
+  let e : Ent := ⟨x.defaultLanguage, path f.xpath "hint", "long".toList, s⟩
+  have hne : (!s.isEmpty) = true := by cases s with | nil => exact absurd rfl hs | cons a b => rfl
+  have he : e ∈ C07.ents x := by
+    apply C07.mem_ents_of_elem hf hv
+    apply List.mem_append.mpr; left
+    simp only [elemEntries, List.mem_append]
+    refine Or.inl (Or.inr ?_)
+    simp only [hl, hne, hg, Bool.and_self, if_true]
+    exact List.mem_map.mpr ⟨(x.defaultLanguage, s), by simp [langsOf], rfl⟩
+  have hag : ∀ e' ∈ C07.ents x, sameKey e e' → e'.text = e.text := by
+    intro e' he' hk
+    obtain ⟨hb, _⟩ := same_elem hx hf (d := "hint") (by decide) he' hk.2.1.symm
+    have hform : e'.form = "long".toList := hk.2.2.symm
+    have hpath : e'.path = path f.xpath "hint" := hk.2.1.symm
+    cases hb with
+    | msg k hkk hp _ _ =>
+      simp only [List.mem_cons, List.mem_nil_iff, or_false] at hkk
+      rcases hkk with rfl | rfl | rfl <;>
+        exact absurd (hp.symm.trans hpath) (path_ne (by decide) (by decide) (by decide))
+    | label hp _ _ => exact absurd (hp.symm.trans hpath) (path_ne (by decide) (by decide) (by decide))
+    | hint _ _ hh =>
+      rw [hl] at hh
+      simp only [langsOf, List.mem_singleton, Prod.mk.injEq] at hh
+      exact hh.2
+    | guidance _ hfg _ => exact absurd (hfg.symm.trans hform) (by decide)
+    | media m _ hp _ _ => exact absurd (hp.symm.trans hpath) (path_ne (by decide) (by decide) (by decide))
+  have h1 := valueAt_setup_agree he hag
+  exact valueAt_pad x.lists _ _ _ _ _ h1
+
+/-- **plain guidance hint**: filed under the default language with content type `guidance` -/
+theorem value_guidance_plain {x : Survey} (hx : ((flats x).map (·.xpath)).Nodup) {f : Flat} (hf : f ∈ flats x)
+    (hv : visited f = true) {s : Str} (hl : f.d.guidance = .str s) (hs : s ≠ []) :
+    valueAt (table x) x.defaultLanguage (path f.xpath "hint") "guidance".toList = some s := by
+  let e : Ent := ⟨x.defaultLanguage, path f.xpath "hint", "guidance".toList, s⟩
+  have hne : (!s.isEmpty) = true := by cases s with | nil => exact absurd rfl hs | cons a b => rfl
+  have he : e ∈ C07.ents x := by
+    apply C07.mem_ents_of_elem hf hv
+    apply List.mem_append.mpr; left
+    simp only [elemEntries, List.mem_append]
+    refine Or.inr ?_
+    simp only [hl, hne, if_true]
+    exact List.mem_map.mpr ⟨(x.defaultLanguage, s), by simp [langsOf], rfl⟩
+  have hag : ∀ e' ∈ C07.ents x, sameKey e e' → e'.text = e.text := by
+    intro e' he' hk
+    obtain ⟨hb, _⟩ := same_elem hx hf (d := "hint") (by decide) he' hk.2.1.symm
+    have hform : e'.form = "guidance".toList := hk.2.2.symm
+    have hpath : e'.path = path f.xpath "hint" := hk.2.1.symm
+    cases hb with
+    | msg k hkk hp _ _ =>
+      simp only [List.mem_cons, List.mem_nil_iff, or_false] at hkk
+      rcases hkk with rfl | rfl | rfl <;>
+        exact absurd (hp.symm.trans hpath) (path_ne (by decide) (by decide) (by decide))
+    | label hp _ _ => exact absurd (hp.symm.trans hpath) (path_ne (by decide) (by decide) (by decide))
+    | hint _ hfh _ => exact absurd (hfh.symm.trans hform) (by decide)
+    | guidance _ _ hgd =>
+      rw [hl] at hgd
+      simp only [langsOf, List.mem_singleton, Prod.mk.injEq] at hgd
+      exact hgd.2
+    | media m _ hp _ _ => exact absurd (hp.symm.trans hpath) (path_ne (by decide) (by decide) (by decide))
+  have h1 := valueAt_setup_agree he hag
+  exact valueAt_pad x.lists _ _ _ _ _ h1
+
+/-- **plain constraint / required message with a `${reference}`**: filed under the default language -/
+theorem value_msg_plain {x : Survey} (hx : ((flats x).map (·.xpath)).Nodup) {f : Flat} (hf : f ∈ flats x)
+    (hv : visited f = true) {k : String} (hk : k ∈ ["jr:constraintMsg", "jr:requiredMsg"])
+    {s : Str} (hm : msgOf f.d k = .str s) (hu : msgUsesItext k.toList (.str s) = true) :
+    valueAt (table x) x.defaultLanguage (path f.xpath k) "long".toList = some s := by
+  let e : Ent := ⟨x.defaultLanguage, path f.xpath k, "long".toList, s⟩
+  have hk3 : k ∈ ["jr:constraintMsg", "jr:requiredMsg", "jr:noAppErrorString"] := by
+    simp only [List.mem_cons, List.mem_nil_iff, or_false] at hk ⊢
+    rcases hk with h | h <;> simp [h]
+  have hkd : k ∈ displays := by
+    simp only [List.mem_cons, List.mem_nil_iff, or_false] at hk
+    rcases hk with rfl | rfl <;> decide
+  have hin : e ∈ msgEntries x.defaultLanguage f.xpath f.d k := by
+    simp only [msgEntries, hm, hu, if_true]
+    exact List.mem_map.mpr ⟨(x.defaultLanguage, s), by simp [langsOf], rfl⟩
+  have he : e ∈ C07.ents x := by
+    apply C07.mem_ents_of_elem hf hv
+    apply List.mem_append.mpr; left
+    simp only [elemEntries, List.mem_append]
+    simp only [List.mem_cons, List.mem_nil_iff, or_false] at hk
+    rcases hk with rfl | rfl
+    · exact Or.inl (Or.inl (Or.inl (Or.inl (Or.inl hin))))
+    · exact Or.inl (Or.inl (Or.inl (Or.inl (Or.inr hin))))
+  have hag : ∀ e' ∈ C07.ents x, sameKey e e' → e'.text = e.text := by
+    intro e' he' hkey
+    obtain ⟨hb, huniq⟩ := same_elem hx hf hkd he' hkey.2.1.symm
+    cases hb with
+    | msg k' hk' hp _ hl' =>
+      have hk'd : k' ∈ displays := by
+        simp only [List.mem_cons, List.mem_nil_iff, or_false] at hk'
+        rcases hk' with rfl | rfl | rfl <;> decide
+      have : k' = k := huniq k' hk'd hp
+      subst this
+      rw [hm] at hl'
+      simp only [langsOf, List.mem_singleton, Prod.mk.injEq] at hl'
+      exact hl'.2
+    | label hp _ _ =>
+      have := huniq "label" (by decide) hp
+      subst this
+      simp at hk
+    | hint hp _ _ =>
+      have := huniq "hint" (by decide) hp
+      subst this
+      simp at hk
+    | guidance hp _ _ =>
+      have := huniq "hint" (by decide) hp
+      subst this
+      simp at hk
+    | media m _ hp _ _ =>
+      have := huniq "label" (by decide) hp
+      subst this
+      simp at hk
+  have h1 := valueAt_setup_agree he hag
+  exact valueAt_pad x.lists _ _ _ _ _ h1
+
 /-! ### choices -/
 
 theorem mem_optsEntries {dl name : Str} : ∀ {os : List Opt} {k : Nat} {e : Ent}, e ∈ optsEntries dl name k os →
@@ -709,6 +837,19 @@ example :
        valueAt (table x) "fr".toList (choiceId "yn".toList 1) "long".toList == some dashStr &&
        decide ((gl.map (·.1)).Nodup) && gl.all (fun l => requiresItext (listOfG l.1 l.2))
      | _, _ => false) = true := by decide +kernel
+
+/-- non-vacuity of the plain-string value theorems: the plain guidance hint and the `${}` required message of `a` in
+the nested example, and the plain hint next to a translated guidance hint of `C07.ex1` -/
+example :
+    (match groupTrees "default".toList hkG treesG, groupLists "default".toList hkG listsG with
+     | .ok gt, .ok gl =>
+       let x := treeSurvey "default".toList gt gl
+       valueAt (table x) "default".toList (path "/data/g/a".toList "hint") "guidance".toList == some "gd".toList &&
+       valueAt (table x) "default".toList (path "/data/g/a".toList "jr:requiredMsg") "long".toList
+         == some "need ${b}".toList
+     | _, _ => false) = true ∧
+    valueAt (table (C07.ex1 (C07.tr [("en", "B")]))) "default".toList (path "/data/a".toList "hint") "long".toList
+      = some "h".toList := by decide +kernel
 
 /-- non-vacuity of `effective_text_rows` on the nested example of `C07Sheets` (question `a` inside group `g`, with
 media and bind-message columns around): xpaths are distinct, the row of `a` is `RowOkG`, its label and hint columns
